@@ -70,6 +70,9 @@ CLAIMED = {
  'C11': ('proptest-generated diffs with sentinel lines fed one line per request through a recording reader/writer pair (every prefix judged); lag and prefix oracles; the same probes on the real binary over pipes',
          'Exploration over inputs and every prefix of their lines: at each point where delta asks for the next line, every hunk line before the open run of removed/added lines must already be written, at most N+1 lines may be held back, the section header must be out, and what is written must be a prefix of the output for that input prefix alone and of the final output; a sample of streams is fed to the real binary line by line over pipes and judged by the same rule once the process blocks in read(0).',
          'Trusted: sentinel visibility = line written; quiescence of the binary read from /proc/<pid>/syscall, the stdin pipe being empty and the context-switch counter; --paging=never for the pipe probes; merge-conflict regions not generated.', '3/C11'),
+ 'C18': ('fault injection on the real binary: LD_PRELOAD shim enumerates every write call towards the consumer (EPIPE from call n on), real closed pipes and quitting pagers; stub pagers/commands; reference model of pager selection; generated inputs and option sets',
+         'Fault enumeration: for generated scenarios (stdin to stdout, stdin to pager, wrapped git/rg command, two files, informational commands, pager-selection environments) the write calls delta makes towards its consumer are counted and then each one in turn (all up to 30 per scenario, sampled beyond; 400 in the thorough tier) is made to fail with EPIPE together with all later ones; the exit status, stderr, delivered bytes, the started pager with its arguments and input, and the order of exits are judged against the statement.',
+         'Trusted: shim (write/writev of the process named delta), stub tools, 15 ms exit stamp of the stub pager; real git only for `delta A B`.', '3/C18'),
 }
 hook_commits = subprocess.check_output(['git','-C','/repo','log','--format=%H','--grep','^verif hook:'],text=True).split()
 checks = []
